@@ -17,9 +17,15 @@ def capSlice (length actual step : Int) : Int :=
   else if actual ≥ length then (if step < 0 then wrap64 (length - 1) else length)
   else actual
 
+/-- The step: 1 when absent; `none` for the "step cannot be 0" error. -/
+def stepOf (c : Option Int) : Option Int :=
+  match c with
+  | none => some 1
+  | some n => if n = 0 then none else some n
+
 /-- `(start, stop, step)`, or `none` for the "step cannot be 0" error. -/
 def computeSliceParams (length : Int) (a b c : Option Int) : Option (Int × Int × Int) :=
-  match (match c with | none => some (1 : Int) | some 0 => none | some n => some n) with
+  match stepOf c with
   | none => none
   | some step =>
     let neg := decide (step < 0)
